@@ -84,9 +84,11 @@ Definition cr (a b p : point) : Z :=
 Definition seg_wn (s : seg) (p : point) : Z :=
   Zsum (map (fun ab => cr (fst ab) (snd ab) p) (pairs_of (chord_pts s))).
 
-(* IntegratePlanar.vertical: open Newton-Cotes on 3+expx+expy+degree nodes *)
+(* IntegratePlanar.vertical: open Newton-Cotes on max(3+expx+expy+degree, degree*(expx+expy+1)) nodes
+   (the second term since the repair of F29: enough nodes for the polynomial x^expx y^expy y') *)
+Definition vertical_nodes (d ex ey : nat) : nat := Nat.max (3 + ex + ey + d) (d * (ex + ey + 1)).
 Definition vertical (s : seg) (ex ey : nat) : Q :=
-  let n := (3 + ex + ey + degree s)%nat in
+  let n := vertical_nodes (degree s) ex ey in
   let ds := derivate s in
   Qred (Qsum (map2 (fun w t =>
                 let P := eval s t in
